@@ -520,6 +520,17 @@ def check(argv):
                                "message": uv["message"], "seeds_failing": len(seeds)})
         print("VIOLATION property=%s replay=%s" % (prop, path))
         print("  invariant=%s seed=%d key=%s\n  %s" % (sig[1], sd, key, uv["message"]))
+        print("  minimised history (%d ops, %d faults, %d forced switches):" % (
+            sum(len(p) for p in use["programs"]), len(use.get("faults", [])),
+            len(use.get("schedule") or [])))
+        for c, prog in enumerate(use["programs"]):
+            for o in prog:
+                print("    client %d  #%s  %s" % (c, o["id"], _brief(o)[:200]))
+        for f in use.get("faults", []):
+            print("    fault  %s" % json.dumps(f, sort_keys=True))
+        for sw in (use.get("schedule") or [])[:12]:
+            print("    switch at client %s op #%s decision %s -> client %s" % (
+                sw["at"][0], sw["at"][1], sw["at"][2], sw["to"]))
     if sweep and sweep["violations"]:
         seen = set()
         for item in sweep["violations"]:
